@@ -144,7 +144,7 @@ def _qr(ctx, p, rng, full=False):
             mech += ':scale1e%+d' % int(round(np.log10(_SCALE)))
         if _SCALE and _SCALE < 1 and not full:
             # the rank threshold is an absolute, user-settable parameter: below its default it is passed
-            Qm, R = UTPM.qr(UTPM(a.copy()), epsilon=1e-14 * _SCALE)
+            Qm, R = UTPM.qr(UTPM(a.copy()), epsilon=[1e-14 * _SCALE, 0, 0.0][int(rng.integers(3))])          # 0: never treat a column as dependent
         elif use_out and M == N and rng.random() < 0.4:       # the overwrite-the-input form: one factor replaces A
             Ain = UTPM(a.copy())
             Qm, R = (UTPM.qr_full if full else UTPM.qr)(Ain, out=(Ain, kw['out'][1]) if rng.random() < .5 else (kw['out'][0], Ain))
